@@ -4,6 +4,7 @@ import (
 	"encoding/binary"
 	"fmt"
 	"reflect"
+	"sync"
 	"syscall"
 )
 
@@ -24,7 +25,12 @@ const (
 	evReleased = 3 // I released addr
 	evFinish   = 4 // client function returned
 	evPanic    = 5 // client function panicked (value kept by the client)
+	evSpawn    = 6 // I started a new task (addr = its id): the code under test executed a go statement
+	evJoin     = 7 // do not run me until every task I spawned has finished (sync.WaitGroup.Wait)
 )
+
+// maxTasks bounds the number of tasks of one run (initial clients + goroutines the code under test spawns).
+const maxTasks = 256
 
 type event struct {
 	task int32
@@ -49,13 +55,56 @@ type RunResult struct {
 	OverBudget   bool
 	Panics       map[int]string
 	Grants       []int32 // task id per step: the complete interleaving
+	Spawned      int     // goroutines started by the code under test during the run (go statements)
 }
 
 type schedState struct {
-	wake   [][2]int // per task pipe: [read, write]
+	wake   [][2]int // per task pipe: [read, write]; preallocated to maxTasks so that it never moves
 	evPipe [2]int
-	n      int
+	n      int // tasks so far; incremented by the task that holds the token when it spawns another
+	// bookkeeping of spawned tasks; written by the token holder (Spawn) and read by the scheduler only
+	// while no task runs, so the token protocol orders the accesses
+	parentOf     []int
+	childrenLive []int
+	remaining    int
+	spawned      int
 }
+
+//go:norace
+func (s *schedState) addTask(p [2]int, parent int) int {
+	id := s.n
+	s.wake[id] = p
+	s.parentOf[id] = parent
+	s.childrenLive[parent]++
+	s.remaining++
+	s.spawned++
+	s.n++
+	return id
+}
+
+//go:norace
+func (s *schedState) finishTask(id int) (parentJoinable int) {
+	s.remaining--
+	if p := s.parentOf[id]; p >= 0 {
+		s.childrenLive[p]--
+		if s.childrenLive[p] == 0 {
+			return p
+		}
+	}
+	return -1
+}
+
+//go:norace
+func (s *schedState) live(id int) int { return s.childrenLive[id] }
+
+//go:norace
+func (s *schedState) left() int { return s.remaining }
+
+//go:norace
+func (s *schedState) nSpawned() int { return s.spawned }
+
+//go:norace
+func (s *schedState) count() int { return s.n }
 
 var (
 	schedActive bool
@@ -270,7 +319,10 @@ func TryRLock(m rwMutexLike, site string) bool {
 // boundaries. maxSteps bounds the run.
 func Run(clients []func(), schedule []uint16, maxSteps int) *RunResult {
 	n := len(clients)
-	s := &schedState{n: n, wake: make([][2]int, n)}
+	s := &schedState{n: n, wake: make([][2]int, maxTasks), parentOf: make([]int, maxTasks), childrenLive: make([]int, maxTasks), remaining: n}
+	for i := range s.parentOf {
+		s.parentOf[i] = -1
+	}
 	mkpipe := func() [2]int {
 		var p [2]int
 		if err := syscall.Pipe2(p[:], syscall.O_CLOEXEC); err != nil {
@@ -279,20 +331,20 @@ func Run(clients []func(), schedule []uint16, maxSteps int) *RunResult {
 		return p
 	}
 	s.evPipe = mkpipe()
-	for i := range s.wake {
+	for i := 0; i < n; i++ {
 		s.wake[i] = mkpipe()
 	}
 	defer func() {
 		syscall.Close(s.evPipe[0])
 		syscall.Close(s.evPipe[1])
-		for _, p := range s.wake {
+		for _, p := range s.wake[:s.count()] {
 			syscall.Close(p[0])
 			syscall.Close(p[1])
 		}
 	}()
 
 	res := &RunResult{Panics: map[int]string{}}
-	lastGrant = make([]int64, n)
+	lastGrant = make([]int64, maxTasks)
 	setCur(s)
 	setAbort(false)
 	setActive(true)
@@ -328,10 +380,11 @@ func Run(clients []func(), schedule []uint16, maxSteps int) *RunResult {
 		stRunnable = iota
 		stBlocked
 		stFinished
+		stJoining // waiting for the tasks it spawned
 	)
-	status := make([]int, n)
-	blockedOn := make([]uint64, n)
-	remaining := n
+	status := make([]int, maxTasks)
+	blockedOn := make([]uint64, maxTasks)
+
 	grant := func(i int, step int64) {
 		var g [8]byte
 		binary.LittleEndian.PutUint64(g[:], uint64(step))
@@ -340,7 +393,7 @@ func Run(clients []func(), schedule []uint16, maxSteps int) *RunResult {
 	}
 	abortAll := func() {
 		setAbort(true)
-		for i := 0; i < n; i++ {
+		for i := 0; i < s.count(); i++ {
 			if status[i] != stFinished {
 				var g [8]byte
 				binary.LittleEndian.PutUint64(g[:], ^uint64(0))
@@ -350,16 +403,16 @@ func Run(clients []func(), schedule []uint16, maxSteps int) *RunResult {
 	}
 
 	step := 0
-	for remaining > 0 {
+	for s.left() > 0 {
 		var runnable []int
-		for i := 0; i < n; i++ {
+		for i := 0; i < s.count(); i++ {
 			if status[i] == stRunnable {
 				runnable = append(runnable, i)
 			}
 		}
 		if len(runnable) == 0 {
 			res.Deadlock = true
-			res.DeadlockInfo = fmt.Sprintf("status=%v blockedOn=%x", status, blockedOn)
+			res.DeadlockInfo = fmt.Sprintf("status=%v blockedOn=%x", status[:s.count()], blockedOn[:s.count()])
 			abortAll()
 			break
 		}
@@ -390,18 +443,26 @@ func Run(clients []func(), schedule []uint16, maxSteps int) *RunResult {
 			blockedOn[pick] = ev.addr
 			res.Contended++
 		case evReleased:
-			for i := 0; i < n; i++ {
+			for i := 0; i < s.count(); i++ {
 				if status[i] == stBlocked && blockedOn[i] == ev.addr {
 					status[i] = stRunnable
 				}
 			}
+		case evJoin:
+			if s.live(pick) > 0 {
+				status[pick] = stJoining
+			}
 		case evFinish, evPanic:
 			status[pick] = stFinished
-			remaining--
+			if p := s.finishTask(pick); p >= 0 && status[p] == stJoining {
+				status[p] = stRunnable
+			}
 		}
 		step++
 	}
 	res.Steps = step
+	res.Spawned = s.nSpawned()
+	spawnWG.Wait()
 	for i := range done {
 		<-done[i]
 		if panicVals[i] != "" {
@@ -410,6 +471,72 @@ func Run(clients []func(), schedule []uint16, maxSteps int) *RunResult {
 	}
 	setActive(false)
 	return res
+}
+
+var spawnWG sync.WaitGroup // goroutines started through Spawn/GoRun; waited for at the end of Run
+
+// Child is the handle of a goroutine the code under test is about to start.
+type Child struct {
+	s  *schedState
+	id int
+}
+
+// Spawn is evaluated by the spawning task as part of the rewritten go statement
+// (`go f(x)` becomes `go simrt.GoRun(simrt.Spawn(site), func() { f(x) })`): it registers a new task
+// with the scheduler and is a scheduling point. Outside a scheduled run it returns nil and the
+// goroutine simply runs.
+func Spawn(site string) *Child {
+	if !isActive() {
+		return nil
+	}
+	s := getCur()
+	if s.count() >= maxTasks {
+		panic("simrt: too many tasks in one simulated run")
+	}
+	var p [2]int
+	if err := syscall.Pipe2(p[:], syscall.O_CLOEXEC); err != nil {
+		panic("simrt: pipe: " + err.Error())
+	}
+	// no scheduling point here: the goroutine does not exist before the go statement that follows has run,
+	// so the new task must not be granted the token before the spawner reaches its next scheduling point
+	id := s.addTask(p, getCurTask())
+	spawnWG.Add(1)
+	return &Child{s: s, id: id}
+}
+
+// GoRun is the body of the rewritten go statement: the new goroutine waits for its first grant, runs
+// the original call and reports that it finished.
+func GoRun(c *Child, fn func()) {
+	if c == nil {
+		fn()
+		return
+	}
+	defer spawnWG.Done()
+	finished := false
+	defer func() {
+		if r := recover(); r != nil {
+			if _, ok := r.(abortSentinel); ok {
+				return
+			}
+			if !getAbort() && !finished {
+				setCurTask(c.id)
+				yieldEv(evPanic, 0)
+			}
+		}
+	}()
+	waitGrant(c.s, c.id)
+	fn()
+	finished = true
+	yieldEv(evFinish, 0)
+}
+
+// WGWait replaces wg.Wait() on a sync.WaitGroup: the task is not run again until every task it spawned
+// has finished, then the real Wait is called (which returns at once if the group counts those tasks).
+func WGWait(wg *sync.WaitGroup, site string) {
+	if isActive() {
+		yieldEv(evJoin, 0)
+	}
+	wg.Wait()
 }
 
 // a panicking client still holds the token (panics happen while running), so its id
